@@ -26,6 +26,8 @@ def run(ctx):
     n = 600 if ctx.quick else 6000
     ctx.tlc("MC_Syntax", "MC_Syntax_sim", replay="syntax", simulate={"num": n, "depth": 500, "procs": 12},
             label="MC_Syntax_sim", timeout=7200)
+    # chains of aliases across modules (the family of C03): the type a member ends up with is the type the source names
+    ctx.tlc("MC_AliasChain", "MC_AliasChain_" + ctx.tier, replay="aliaschain", coverage=False)
     # name collisions across scopes and files (the arrangements of C15): identifiers that collide across scopes (a definition, a member and a module with one scoped name): the same AST in every file order
     ctx.tlc("MC_Collide", "MC_Collide", replay="repro", coverage=False)
     trace = ctx.collect_events("repro")
